@@ -4,6 +4,7 @@ import PromProofs.Merge
 import PromProofs.MergeTotal
 import PromProofs.MergeSeek
 import PromProofs.MergeSets
+import PromProofs.MergeChunks
 /-
   C19 — Merging series sets de-duplicates without losing data.
   Property theorems only; helper lemmas live in PromProofs/GoHeap.lean and PromProofs/Merge.lean.
@@ -250,6 +251,62 @@ theorem compact_chunks_full_witness : ¬ compact_chunks_full := by
     [Chunk.ofSamples [⟨1, .float, 1⟩], Chunk.ofSamples [⟨2, .float, 3⟩]] (by decide)).2
   revert this
   decide
+
+/-- every chunk series well-formed: chunks non-empty, samples strictly increasing, inside the meta range
+    and above `MinInt64` (`ChunkOK`), chunks of one series time-ordered and disjoint -/
+def ChunkSeriesOK (series : List (List Chunk)) : Prop :=
+  ∀ cs ∈ series, (∀ c ∈ cs, ChunkOK c) ∧ cs.Pairwise fun a b => a.maxt < b.mint
+
+/-- The compacting chunk merger, repaired statement, for ANY number of well-formed chunk series with
+    arbitrary overlaps and duplicates: if `NewCompactingChunkSeriesMerger(ChainedSeriesMerge)` ends
+    normally, its chunks are time-ordered and pairwise disjoint, each is well-formed, their timestamps
+    are exactly the sorted de-duplicated union of all input timestamps (nothing lost, nothing invented,
+    nothing repeated), and every sample is an input sample — literally, or with its counter-reset hint
+    reset to "unknown" where the chain read it across inputs. -/
+theorem compact_chunks (series : List (List Chunk)) (hwf : ChunkSeriesOK series) (out : List Chunk)
+    (h : compactAll series = (out, .fin)) :
+    (out.Pairwise fun a b => a.maxt < b.mint) ∧ (∀ c ∈ out, ChunkOK c) ∧
+    (out.flatMap (·.samples)).map (·.t) =
+      (((series.flatten.flatMap (·.samples)).map (·.t)).mergeSort (· ≤ ·)).eraseDups ∧
+    ∀ x ∈ out.flatMap (·.samples), ∃ c ∈ series.flatten, ∃ y ∈ c.samples,
+      x = y ∨ x = { y with payload := y.payload / 4 * 4 } := by
+  have hp := compactAll_spec series hwf out h
+  refine ⟨hp.ord, hp.ok, ?_, ?_⟩
+  · apply strict_ext
+    · have := smp_sorted out hp.ok hp.ord
+      unfold SortedL at this
+      rw [List.pairwise_map]; exact this
+    · apply eraseDups_strict
+      have := List.pairwise_mergeSort (le := fun (a b : Int) => decide (a ≤ b))
+        (by intro a b c; simp; omega) (by intro a b; simp; omega)
+        ((series.flatten.flatMap (·.samples)).map (·.t))
+      simpa using this
+    · intro t
+      rw [List.mem_eraseDups, List.mem_mergeSort]
+      constructor
+      · intro ht
+        obtain ⟨x, hx, rfl⟩ := List.mem_map.1 ht
+        obtain ⟨y, hy, hxy⟩ := hp.sub x hx
+        exact List.mem_map.2 ⟨y, hy, hxy.t.symm⟩
+      · intro ht
+        obtain ⟨y, hy, rfl⟩ := List.mem_map.1 ht
+        exact hp.cov y hy
+  · intro x hx
+    obtain ⟨y, hy, hxy⟩ := hp.sub x hx
+    obtain ⟨c, hc, hyc⟩ := mem_smp.1 hy
+    exact ⟨c, hc, y, hyc, hxy⟩
+
+example : ChunkSeriesOK [[Chunk.ofSamples [⟨1, .float, 1⟩, ⟨5, .float, 2⟩]],
+    [Chunk.ofSamples [⟨3, .float, 7⟩, ⟨5, .float, 8⟩, ⟨6, .float, 9⟩]]] := by
+  intro cs hcs
+  simp only [List.mem_cons, List.not_mem_nil, or_false] at hcs
+  rcases hcs with rfl | rfl
+  · refine ⟨?_, by simp⟩
+    intro c hc; simp only [List.mem_singleton] at hc; subst hc
+    exact ⟨by decide, by unfold SortedL; decide, by decide, by decide⟩
+  · refine ⟨?_, by simp⟩
+    intro c hc; simp only [List.mem_singleton] at hc; subst hc
+    exact ⟨by decide, by unfold SortedL; decide, by decide, by decide⟩
 
 /-- pass-through keeps a histogram's counter-reset hint, reading through the chain resets it -/
 example : compactAll [[Chunk.ofSamples [⟨1, .hist, 5⟩]]] = ([Chunk.ofSamples [⟨1, .hist, 5⟩]], .fin) ∧
